@@ -1034,6 +1034,12 @@ class Engine(ExprEval, NumpyModel, NumpyFuncs):
                         return [(st, ("raise", "TypeError", stmt))]
         return [(st, ("raise", name, stmt))]
 
+    def s_Continue(self, st, stmt):
+        return [(st, ("continue",))]
+
+    def s_Break(self, st, stmt):
+        return [(st, ("break",))]
+
     def s_Pass(self, st, stmt):
         return [(st, None)]
 
@@ -1243,6 +1249,7 @@ class Engine(ExprEval, NumpyModel, NumpyFuncs):
             return e
 
         # 1. init
+        self._apply_declared_elems(st, self.cur.loop_vars.get(label, {}))
         self.check_invariants(st, label, invs, extra(0), "inv.init", stmt)
         # 2. havoc
         names, attrs = self.assigned_names(stmt.body)
@@ -1282,6 +1289,14 @@ class Engine(ExprEval, NumpyModel, NumpyFuncs):
         outs.append((ex, None))
         return outs
 
+    def _apply_declared_elems(self, st, declared):
+        for nm, t in declared.items():
+            v = st.env.get(nm)
+            if isinstance(v, Lst) and v.elem is None:
+                ts = parse_type(t)
+                if ts.base == "list":
+                    st.env[nm] = Lst.of(v.items, ts.elem) if v.items is not None else Lst(v.length, v.get, ts.elem)
+
     def s_While(self, st, stmt):
         if stmt.orelse:
             raise Unsupported("while-else")
@@ -1291,6 +1306,7 @@ class Engine(ExprEval, NumpyModel, NumpyFuncs):
         if invs is None:
             raise Unsupported(f"while loop at line {stmt.lineno} ({label}) needs an invariant")
         self._inv_hit.add(label)
+        self._apply_declared_elems(st, self.cur.loop_vars.get(label, {}))
         self.check_invariants(st, label, invs, {}, "inv.init", stmt)
         names, attrs = self.assigned_names(stmt.body)
         rebound = self.rebound_names(stmt.body)
